@@ -41,6 +41,7 @@ type Answer struct {
 	ReadErrAt    int      `json:"read_err_at,omitempty"` // >0: the body reader fails after that many bytes
 	TransportErr bool     `json:"transport_err,omitempty"`
 	Shape        string   `json:"shape,omitempty"`
+	After        int      `json:"after,omitempty"` // the first After requests to this endpoint are answered correctly, this answer applies from then on (chains: code exchange fine, refresh hostile)
 }
 
 type CliCase struct {
@@ -48,6 +49,7 @@ type CliCase struct {
 	Variant int       `json:"variant,omitempty"`
 	Answers []Answer  `json:"answers,omitempty"`
 	Toks    []TokSpec `json:"toks,omitempty"`
+	Pending []string  `json:"pending,omitempty"` // device_flow: error codes (status 400) with which the token endpoint answers the first polls, before its Answer / the correct document
 }
 
 const (
@@ -59,7 +61,15 @@ const (
 var cliOps = []string{
 	"discover", "new_rp", "code_exchange", "refresh", "userinfo", "client_credentials", "introspect", "keyset", "device_authorization", "device_token",
 	"token_exchange", "end_session", "revoke", "profile", "jwt_profile_exchange", "callback_handler", "new_rs", "new_token_exchanger",
+	// chains: every later helper is called with the fields of the response the previous helper returned, as the example clients do
+	"device_flow", "code_flow", "cc_flow", "refresh_flow",
 }
+
+var chainOps = []string{"device_flow", "code_flow", "cc_flow", "refresh_flow"}
+
+// pollDeadline bounds the helpers that wait (device token polling): they get a context that ends after this long. It only
+// makes the call return; nothing is concluded from which way it returned.
+const pollDeadline = 25 * time.Millisecond
 
 var epPaths = map[string]string{
 	"/.well-known/openid-configuration": "discovery", "/token": "token", "/userinfo": "userinfo", "/introspect": "introspect", "/keys": "keys",
@@ -79,7 +89,7 @@ func primaryEP(opName string) string {
 		return "introspect"
 	case "keyset":
 		return "keys"
-	case "device_authorization":
+	case "device_authorization", "device_flow":
 		return "device"
 	case "end_session":
 		return "end_session"
@@ -110,12 +120,14 @@ func (f *failingReader) Read(p []byte) (int, error) {
 }
 
 type fakeProvider struct {
-	answers map[string]Answer
+	answers map[string][]Answer
 	env     map[string]string
 	now     time.Time
 	calls   int
 	seen    []string
 	last200 map[string][]byte // bodies served with 200, per endpoint
+	perEP   map[string]int    // requests so far, per endpoint
+	pending []string
 }
 
 func (f *fakeProvider) validBody(ep string) (string, string) {
@@ -138,6 +150,9 @@ func (f *fakeProvider) RoundTrip(req *http.Request) (*http.Response, error) {
 		io.Copy(io.Discard, req.Body)
 		req.Body.Close()
 	}
+	if err := req.Context().Err(); err != nil {
+		return nil, err // as every real transport does
+	}
 	if f.calls > 40 {
 		return nil, errors.New("fake provider: too many requests in one case")
 	}
@@ -148,10 +163,25 @@ func (f *fakeProvider) RoundTrip(req *http.Request) (*http.Response, error) {
 		}
 	}
 	f.seen = append(f.seen, ep)
-	ans, custom := f.answers[ep]
+	if f.perEP == nil {
+		f.perEP = map[string]int{}
+	}
+	f.perEP[ep]++
+	// the answer in force for the n-th request to an endpoint: the one with the largest After below n
+	var ans Answer
+	custom := false
+	for _, a := range f.answers[ep] {
+		if a.After < f.perEP[ep] && (!custom || a.After >= ans.After) {
+			ans, custom = a, true
+		}
+	}
 	status := 200
 	body, ct := f.validBody(ep)
 	hdr := http.Header{}
+	if ep == "token" && f.perEP[ep] <= len(f.pending) {
+		custom, status = false, 400
+		body = `{"error":` + q(f.pending[f.perEP[ep]-1]) + `}`
+	}
 	switch ep {
 	case "other":
 		status = 404
@@ -276,10 +306,95 @@ func genAnswer(t *rapid.T, ep, label string) Answer {
 	return a
 }
 
+// sparseAnswer: 200 with the correct document reduced to a random subset of its members and / or with zero, negative and
+// huge values in its numeric members (a partially filled / zero-valued response that still decodes).
+func sparseAnswer(t *rapid.T, ep, label string) Answer {
+	a := Answer{EP: ep, Status: 200, Shape: "sparse"}
+	kind := epKinds[ep]
+	for _, k := range docKeys(baseDoc(kind)) {
+		switch rapid.IntRange(0, 5).Draw(t, label+"sp-"+k) {
+		case 0, 1:
+			a.Muts = append(a.Muts, DocMut{Key: k, Op: "del"})
+		case 2:
+			a.Muts = append(a.Muts, DocMut{Key: k, Op: "set", Val: rapid.SampledFrom([]string{`0`, `-1`, `-5`, `""`, `null`, `1`, `2147483648`, `9223372036854775807`, `-9223372036854775808`, `9999999999`, `"0"`, `[]`, `{}`, `false`}).Draw(t, label+"spv-"+k)})
+		}
+	}
+	return a
+}
+
+// genChain draws the provider's answers along a multi-step helper chain: the response that feeds the next call is mostly
+// well-formed enough to decode (sparse / edited), the endpoints of the later steps answer with anything.
+func genChain(t *rapid.T, c *CliCase) {
+	feed := func(ep, label string) {
+		switch rapid.IntRange(0, 5).Draw(t, label+"feed") {
+		case 0: // correct document
+		case 1, 2, 3:
+			c.Answers = append(c.Answers, sparseAnswer(t, ep, label))
+		default:
+			c.Answers = append(c.Answers, genAnswer(t, ep, label))
+		}
+	}
+	later := func(ep, label string, outOf int) {
+		if rapid.IntRange(1, outOf).Draw(t, label+"q") == 1 {
+			a := genAnswer(t, ep, label)
+			if ep == "token" {
+				a.After = rapid.IntRange(1, 2).Draw(t, label+"after")
+			}
+			c.Answers = append(c.Answers, a)
+		}
+	}
+	switch c.Op {
+	case "device_flow":
+		feed("device", "dev")
+		n := rapid.IntRange(0, 3).Draw(t, "npending")
+		for i := 0; i < n; i++ {
+			c.Pending = append(c.Pending, rapid.SampledFrom([]string{"authorization_pending", "authorization_pending", "slow_down", "access_denied", "expired_token", ""}).Draw(t, fmt.Sprintf("pending%d", i)))
+		}
+		if rapid.Bool().Draw(t, "devtok") {
+			c.Answers = append(c.Answers, genAnswer(t, "token", "tok"))
+		}
+	case "code_flow":
+		feed("token", "tok")
+		later("userinfo", "ui", 2)
+		later("token", "tok2", 3)
+		later("revoke", "rv", 3)
+		later("end_session", "es", 3)
+		later("keys", "keys", 4)
+	case "cc_flow":
+		feed("token", "tok")
+		later("userinfo", "ui", 2)
+		later("introspect", "in", 2)
+		later("revoke", "rv", 3)
+	case "refresh_flow":
+		feed("token", "tok")
+		later("token", "tok2", 2)
+		later("userinfo", "ui", 2)
+		later("keys", "keys", 4)
+	}
+	// the discovery document names the endpoints every later call uses
+	if rapid.IntRange(0, 3).Draw(t, "chaindisc") == 0 {
+		if rapid.Bool().Draw(t, "chaindiscsparse") {
+			c.Answers = append(c.Answers, sparseAnswer(t, "discovery", "disc"))
+		} else {
+			c.Answers = append(c.Answers, genAnswer(t, "discovery", "disc"))
+		}
+	}
+}
+
 func genCliCase(t *rapid.T) CliCase {
 	var c CliCase
 	c.Op = rapid.SampledFrom(cliOps).Draw(t, "op")
 	c.Variant = rapid.IntRange(0, 3).Draw(t, "variant")
+	if contains(chainOps, c.Op) {
+		genChain(t, &c)
+		for _, a := range c.Answers {
+			if a.Shape == "hostile-id-token" {
+				c.Toks = []TokSpec{genTokSpec(t, "idtoken", "tok", []struct{ kid, key, alg string }{{"k1", "p256a", "ES256"}})}
+				break
+			}
+		}
+		return c
+	}
 	prim := primaryEP(c.Op)
 	c.Answers = append(c.Answers, genAnswer(t, prim, "prim"))
 	// a second hostile endpoint on the path of the helper (discovery for constructed RPs, keys behind the token endpoint)
@@ -324,9 +439,12 @@ func runCli(c CliCase, res *vkit.Result, h string) {
 	for i, ts := range c.Toks {
 		env[fmt.Sprintf("tok%d", i)] = ts.Build(env, now)
 	}
-	fp := &fakeProvider{answers: map[string]Answer{}, env: env, now: now, last200: map[string][]byte{}}
+	fp := &fakeProvider{answers: map[string][]Answer{}, env: env, now: now, last200: map[string][]byte{}, pending: c.Pending}
 	for _, a := range c.Answers {
-		fp.answers[a.EP] = a
+		if a.After < 0 {
+			a.After = 0
+		}
+		fp.answers[a.EP] = append(fp.answers[a.EP], a)
 	}
 	hc := &http.Client{Transport: fp}
 	ctx := context.Background()
@@ -349,6 +467,11 @@ func runCli(c CliCase, res *vkit.Result, h string) {
 			default:
 				out = "ok"
 			}
+		}
+		// step records the outcome of one link of a chain
+		step := func(isNil bool, err error) {
+			result(nil, isNil, err)
+			res.Label("cli-chain:" + c.Op + ":" + stage + ":" + out)
 		}
 		newRP := func() rp.RelyingParty {
 			stage = "new_rp"
@@ -541,6 +664,97 @@ func runCli(c CliCase, res *vkit.Result, h string) {
 					out = "error"
 				}
 			}
+		case "device_flow":
+			// example/client/device: the device authorization response feeds the poll
+			if r := newRP(); r != nil {
+				stage = "device_authorization"
+				d, err := rp.DeviceAuthorization(ctx, []string{"openid"}, r, nil)
+				step(d == nil, err)
+				if err == nil && d != nil {
+					stage = "device_access_token"
+					res.Label("cli-chain-interval:" + intervalClass(d.Interval))
+					pctx, cancel := context.WithTimeout(ctx, pollDeadline)
+					tk, err := rp.DeviceAccessToken(pctx, d.DeviceCode, time.Duration(d.Interval)*time.Second, r)
+					cancel()
+					step(tk == nil, err)
+				}
+			}
+		case "code_flow":
+			// example/client/app: tokens of the code exchange feed userinfo, refresh, revocation and logout
+			if r := newRP(); r != nil {
+				stage = "code_exchange"
+				tk, err := rp.CodeExchange[*oidc.IDTokenClaims](ctx, "the-code", r)
+				step(tk == nil, err)
+				if err == nil && tk != nil && tk.Token != nil {
+					sub := ""
+					if tk.IDTokenClaims != nil {
+						sub = tk.IDTokenClaims.Subject
+					}
+					stage = "userinfo"
+					ui, err := rp.Userinfo[*oidc.UserInfo](ctx, tk.AccessToken, tk.TokenType, sub, r)
+					step(ui == nil, err)
+					stage = "refresh"
+					nt, err := rp.RefreshTokens[*oidc.IDTokenClaims](ctx, r, tk.RefreshToken, "", "")
+					step(nt == nil, err)
+					idt, rt := tk.IDToken, tk.RefreshToken
+					if err == nil && nt != nil && nt.Token != nil {
+						if nt.IDToken != "" {
+							idt = nt.IDToken
+						}
+						rt = nt.RefreshToken
+						stage = "userinfo2"
+						ui, err = rp.Userinfo[*oidc.UserInfo](ctx, nt.AccessToken, nt.TokenType, sub, r)
+						step(ui == nil, err)
+					}
+					stage = "revoke"
+					step(false, rp.RevokeToken(ctx, r, rt, "refresh_token"))
+					stage = "end_session"
+					_, err = rp.EndSession(ctx, r, idt, "https://rp.test/out", "st")
+					step(false, err)
+				}
+			}
+		case "cc_flow":
+			// a service: the client_credentials token feeds userinfo, introspection (resource server side) and revocation
+			if r := newRP(); r != nil {
+				stage = "client_credentials"
+				tk, err := rp.ClientCredentials(ctx, r, nil)
+				step(tk == nil, err)
+				if err == nil && tk != nil {
+					stage = "userinfo"
+					ui, err := rp.Userinfo[*oidc.UserInfo](ctx, tk.AccessToken, tk.TokenType, "u1", r)
+					step(ui == nil, err)
+					stage = "new_rs"
+					rsrv, err := rs.NewResourceServerClientCredentials(ctx, cliIssuer, cliClient, cliSecret, rs.WithClient(hc))
+					step(rsrv == nil, err)
+					if err == nil && rsrv != nil {
+						stage = "introspect"
+						ir, err := rs.Introspect[*oidc.IntrospectionResponse](ctx, rsrv, tk.AccessToken)
+						step(ir == nil, err)
+					}
+					stage = "revoke"
+					step(false, rp.RevokeToken(ctx, r, tk.AccessToken, "access_token"))
+				}
+			}
+		case "refresh_flow":
+			// a long-running client: every refresh response feeds the next refresh and the userinfo call
+			if r := newRP(); r != nil {
+				rt, sub := "rt-0", "u1"
+				for i := 0; i < 3; i++ {
+					stage = fmt.Sprintf("refresh%d", i+1)
+					nt, err := rp.RefreshTokens[*oidc.IDTokenClaims](ctx, r, rt, "", "")
+					step(nt == nil, err)
+					if err != nil || nt == nil || nt.Token == nil {
+						break
+					}
+					if nt.IDTokenClaims != nil {
+						sub = nt.IDTokenClaims.Subject
+					}
+					rt = nt.RefreshToken
+					stage = fmt.Sprintf("userinfo%d", i+1)
+					ui, err := rp.Userinfo[*oidc.UserInfo](ctx, nt.AccessToken, nt.TokenType, sub, r)
+					step(ui == nil, err)
+				}
+			}
 		default:
 			res.Grey = true
 			out = "unknown-op"
@@ -568,8 +782,23 @@ func runCli(c CliCase, res *vkit.Result, h string) {
 	res.Info = map[string]any{"outcome": out, "stage": stage, "requests": fp.seen}
 }
 
+func intervalClass(n int) string {
+	switch {
+	case n < 0:
+		return "negative"
+	case n == 0:
+		return "zero"
+	case n > 1<<31:
+		return "huge"
+	}
+	return "positive"
+}
+
 func describeAnswers(c CliCase, fp *fakeProvider) string {
 	var parts []string
+	if len(c.Pending) > 0 {
+		parts = append(parts, "token polls first answered 400 "+strings.Join(c.Pending, ","))
+	}
 	for _, a := range c.Answers {
 		body := "<correct document"
 		if len(a.Muts) > 0 {
@@ -582,6 +811,9 @@ func describeAnswers(c CliCase, fp *fakeProvider) string {
 		}
 		if a.WholeB != nil {
 			body = fmt.Sprintf("%q", clip(string(a.WholeB), 120))
+		}
+		if a.After > 0 {
+			body += fmt.Sprintf(" (from request %d on)", a.After+1)
 		}
 		parts = append(parts, fmt.Sprintf("%s: status %d body %s", a.EP, a.Status, body))
 	}
